@@ -46,8 +46,8 @@ Not modelled at all (fidelity limits, also in the harness ASSUMPTIONS):
   * awaitables that raise (`Skip` included), `set_exception` / cancellation of the hand-made future
     by the user; `_update_ref`'s re-installation of the ref watchers (only its effect on `refs` /
     `async_refs` is modelled); sync generator functions (thread pool); other event loops;
-  * rx: one `.rx.pipe(async def)` node with a `.rx.watch` callback (every input change is evaluated
-    at once); async generators through a pipe are not modelled.
+  * rx: one `.rx.pipe(coroutine function | async generator function)` node with a `.rx.watch`
+    callback (every input change is evaluated at once); sync generator functions are not modelled.
 -/
 import ParamVerif.Async.LemmasGhost
 import ParamVerif.Async.RxLemmas
@@ -211,31 +211,36 @@ example :
 
 /-! ### expression pipelines (`r.rx.pipe(coroutine function)`, Async/Rx.lean) -/
 
-/-- **C10 (latest wins for an expression that pipes through a coroutine)**: for every schedule of
-input changes, ticks and completions — in every order —, once the loop is idle and the MOST RECENT
-evaluation (number `nTasks - 1`: evaluations are numbered in the order they were requested) has
-completed with `v`, the expression holds `v` — whether or not older evaluations are still pending. -/
-theorem rx_latest_wins (evs : List Rx.Event) (hq : (Rx.run evs).ready = []) (v : Int)
-    (hd : (Rx.run evs).futs ((Rx.run evs).nTasks - 1) = .done v) : (Rx.run evs).cur = some v := by
-  obtain ⟨m, h⟩ := Rx.rinv_run evs
-  exact (Rx.rinv_latest_wins _ m h hq v hd).1
+/-- **C10 (latest wins for an expression that pipes through a coroutine or an async generator)**:
+`nf` = awaitables per evaluation (1: coroutine function; n: async generator function with n yields).
+For every schedule of input changes, ticks and completions — in every order —, once the loop is
+idle and every awaitable of the MOST RECENT evaluation (number `nTasks - 1`: evaluations are numbered
+in the order they were requested) has completed, the expression holds that evaluation's last result
+— whether or not older evaluations are still pending or yield again later. -/
+theorem rx_latest_wins (nf : Nat) (hn : 0 < nf) (evs : List Rx.Event) (hq : (Rx.run nf evs).ready = [])
+    (hd : ∀ k, k < nf → ∃ v, (Rx.run nf evs).futs ((Rx.run nf evs).nTasks - 1, k) = .done v) :
+    ∃ v, (Rx.run nf evs).futs ((Rx.run nf evs).nTasks - 1, nf - 1) = .done v ∧ (Rx.run nf evs).cur = some v := by
+  obtain ⟨m, h⟩ := Rx.rinv_run nf evs
+  exact (Rx.rinv_latest_wins nf _ m h hq hn hd).2
 
-/-- what the expression holds is the completed result of the evaluation `holder` (ghost: set where
+/-- what the expression holds is the completed result of the awaitable `holder` (ghost: set where
 `_resolve_async` stores, never read) … -/
-theorem rx_holds_result_of_holder (evs : List Rx.Event) :
-    (∀ t, (Rx.run evs).holder = some t → ∃ v, (Rx.run evs).futs t = .done v ∧ (Rx.run evs).cur = some v) ∧
-    ((Rx.run evs).holder = none → (Rx.run evs).cur = none) := by
-  obtain ⟨m, h⟩ := Rx.rinv_run evs
-  exact ⟨fun t ht => (h.held t ht).2, h.unheld⟩
+theorem rx_holds_result_of_holder (nf : Nat) (evs : List Rx.Event) :
+    (∀ t k, (Rx.run nf evs).holder = some (t, k) →
+      ∃ v, (Rx.run nf evs).futs (t, k) = .done v ∧ (Rx.run nf evs).cur = some v) ∧
+    ((Rx.run nf evs).holder = none → (Rx.run nf evs).cur = none) := by
+  obtain ⟨m, h⟩ := Rx.rinv_run nf evs
+  exact ⟨fun t k ht => (h.held t k ht).2, h.unheld⟩
 
 /-- … and **a superseded result is never applied after a newer one**: over any event of any
-schedule the evaluation whose result is held never goes back to an older one. -/
-theorem rx_superseded_never_applied_after_newer (evs : List Rx.Event) (ev : Rx.Event) :
-    Rx.HLe (Rx.run evs).holder (Rx.run (evs ++ [ev])).holder := by
-  obtain ⟨m, h⟩ := Rx.rinv_run evs
-  have : Rx.run (evs ++ [ev]) = Rx.applyEvent (Rx.run evs) ev := by simp [Rx.run, List.foldl_append]
+schedule the awaitable whose result is held never goes back — neither to an older evaluation (a
+superseded generator that yields again) nor to an earlier yield of the same one (`Rx.fle`). -/
+theorem rx_superseded_never_applied_after_newer (nf : Nat) (evs : List Rx.Event) (ev : Rx.Event) :
+    Rx.HLe (Rx.run nf evs).holder (Rx.run nf (evs ++ [ev])).holder := by
+  obtain ⟨m, h⟩ := Rx.rinv_run nf evs
+  have : Rx.run nf (evs ++ [ev]) = Rx.applyEvent nf (Rx.run nf evs) ev := by simp [Rx.run, List.foldl_append]
   rw [this]
-  exact Rx.holder_applyEvent _ m ev h
+  exact Rx.holder_applyEvent nf _ m ev h
 
 /-! ### non-vacuity: the hypotheses are met by the hard schedules, and the conclusions are not trivial -/
 
@@ -273,12 +278,22 @@ example : (run Cfg.repo calmSchedule).ready = [] ∧ (run Cfg.repo calmSchedule)
     (run Cfg.repo calmSchedule).last 0 = .plain 100 ∧ allSettled (run Cfg.repo calmSchedule) = true ∧
     (run Cfg.repo calmSchedule).vals 1 = 30 ∧ (run Cfg.repo calmSchedule).vals 0 = 100 ∧
     (run Cfg.repo calmSchedule).log = [(0, 11), (0, 20), (0, 100), (1, 30)] := by decide
-/-- rx: the older evaluation completes last, its result is dropped -/
-example : (Rx.run [.set 20, .tick, .complete 1 20, .tick, .complete 0 10, .tick]).cur = some 20 ∧
-    (Rx.run [.set 20, .tick, .complete 1 20, .tick, .complete 0 10, .tick]).ready = [] ∧
-    (Rx.run [.set 20, .tick, .complete 1 20, .tick]).futs 0 = .pending (some 0) ∧
-    (Rx.run [.set 20, .tick, .complete 1 20, .tick]).cur = some 20 ∧
-    (Rx.run [.set 20, .tick, .complete 1 20, .tick, .complete 0 10, .tick]).holder = some 1 := by decide
+/-- rx, coroutine: the older evaluation completes last, its result is dropped -/
+example : (Rx.run 1 [.set, .tick, .complete 1 0 20, .tick, .complete 0 0 10, .tick]).cur = some 20 ∧
+    (Rx.run 1 [.set, .tick, .complete 1 0 20, .tick, .complete 0 0 10, .tick]).ready = [] ∧
+    (Rx.run 1 [.set, .tick, .complete 1 0 20, .tick]).futs (0, 0) = .pending (some 0) ∧
+    (Rx.run 1 [.set, .tick, .complete 1 0 20, .tick]).cur = some 20 ∧
+    (Rx.run 1 [.set, .tick, .complete 1 0 20, .tick, .complete 0 0 10, .tick]).holder = some (1, 0) := by decide
+/-- rx, async generator with two yields: the superseded generator, suspended between its yields when
+the input changed, yields again after the newer one has delivered its last value — not applied -/
+example :
+    (Rx.run 2 [.tick, .complete 0 0 10, .tick, .set, .tick, .complete 1 0 20, .complete 1 1 21, .tick,
+               .complete 0 1 11, .tick]).cur = some 21 ∧
+    (Rx.run 2 [.tick, .complete 0 0 10, .tick]).cur = some 10 ∧
+    (Rx.run 2 [.tick, .complete 0 0 10, .tick, .set, .tick, .complete 1 0 20, .complete 1 1 21, .tick,
+               .complete 0 1 11, .tick]).ready = [] ∧
+    (Rx.run 2 [.tick, .complete 0 0 10, .tick, .set, .tick, .complete 1 0 20, .complete 1 1 21, .tick,
+               .complete 0 1 11, .tick]).log = [some 10, some 10, some 20, some 21] := by decide
 
 /-! ### REGRESSION: the configuration before commits 08165dc / 0c5ea5c (`Cfg.preFix`)
 
